@@ -1,0 +1,53 @@
+//go:build verif
+
+// Contracts for the contract-based verification in /verif (comment-only file).
+
+package slayers
+
+//@ # ---- C20: one's-complement checksum
+//@ # sum of the big-endian 16-bit words b[0..n) (n even), written from RFC 1071 / the SCION checksum description
+//@ spec func wsum(b []byte, n int) uint32 = rec ite(n <= 0, 0, wsum(b, n-2)+(uint32(b[n-2])<<8|uint32(b[n-1])))
+//@ # whole upper layer: an odd trailing byte is padded with a zero byte
+//@ spec func wsumAll(b []byte) uint32 = wsum(b, len(b)-len(b)%2)+ite(len(b)%2 == 1, uint32(b[len(b)-1])<<8, 0)
+//@ spec func fold1(c uint32) uint32 = (c>>16)+(c&0xffff)
+//@ spec func fold32(c uint32) uint16 = uint16(fold1(fold1(c)))
+//@ spec func iaSum(ia uint64) uint32 = (uint32(uint8(ia>>56))<<8)+uint32(uint8(ia>>48))+(uint32(uint8(ia>>40))<<8)+uint32(uint8(ia>>32))+(uint32(uint8(ia>>24))<<8)+uint32(uint8(ia>>16))+(uint32(uint8(ia>>8))<<8)+uint32(uint8(ia))
+
+//@ func (*SCION).foldChecksum
+//@   props C20
+//@   loop 1 unroll 2
+//@   modifies nothing
+//@   ensures result == ^fold32(csum)
+
+//@ func (*SCION).upperLayerChecksum
+//@   props C20
+//@   requires len(upperLayer) <= 65536
+//@   let c0 = csum
+//@   loop 1 invariant 0 <= i && i%2 == 0 && (i <= len(upperLayer)-1 || i == 0 || i == len(upperLayer)) && csum == c0+wsum(upperLayer, i)
+//@   modifies nothing
+//@   ensures result == c0+wsumAll(upperLayer)
+
+//@ func (*SCION).pseudoHeaderChecksum
+//@   props C20
+//@   requires len(s.RawSrcAddr) <= 16 && len(s.RawSrcAddr)%2 == 0 && len(s.RawDstAddr) <= 16 && len(s.RawDstAddr)%2 == 0
+//@   loop 2 invariant 0 <= i && i%2 == 0 && i <= len(s.RawSrcAddr)
+//@   loop 2 invariant csum == iaSum(uint64(s.SrcIA))+iaSum(uint64(s.DstIA))+wsum(s.RawSrcAddr, i)
+//@   loop 3 invariant 0 <= i && i%2 == 0 && i <= len(s.RawDstAddr)
+//@   loop 3 invariant csum == iaSum(uint64(s.SrcIA))+iaSum(uint64(s.DstIA))+wsum(s.RawSrcAddr, len(s.RawSrcAddr))+wsum(s.RawDstAddr, i)
+//@   modifies nothing
+//@   ensures (result1 == nil) == (len(s.RawDstAddr) != 0 && len(s.RawSrcAddr) != 0)
+//@   ensures result1 == nil ==> result0 == iaSum(uint64(s.SrcIA))+iaSum(uint64(s.DstIA))+wsum(s.RawSrcAddr, len(s.RawSrcAddr))+wsum(s.RawDstAddr, len(s.RawDstAddr))+(uint32(length)>>16)+(uint32(length)&0xffff)+uint32(protocol)
+
+//@ func (*SCION).computeChecksum
+//@   props C20
+//@   requires s != nil ==> len(s.RawSrcAddr) <= 16 && len(s.RawSrcAddr)%2 == 0 && len(s.RawDstAddr) <= 16 && len(s.RawDstAddr)%2 == 0
+//@   requires len(upperLayer) <= 65536
+//@   modifies nothing
+//@   ensures (result1 == nil) == (s != nil && len(s.RawDstAddr) != 0 && len(s.RawSrcAddr) != 0)
+//@   ensures result1 == nil ==> result0 == ^fold32(iaSum(uint64(s.SrcIA))+iaSum(uint64(s.DstIA))+wsum(s.RawSrcAddr, len(s.RawSrcAddr))+wsum(s.RawDstAddr, len(s.RawDstAddr))+(uint32(len(upperLayer))>>16)+(uint32(len(upperLayer))&0xffff)+uint32(protocol)+wsumAll(upperLayer))
+
+//@ # a receiver adding the transmitted checksum to the same sum obtains 0xffff (sum below 2^31: > 30000 full-size words)
+//@ lemma checksumVerifies C20: forall S uint32 :: S < 0x7fff0000 ==> fold32(S+uint32(^fold32(S))) == 0xffff
+//@ # a change of the covered sum by one bit position of a 16-bit word changes the folded sum
+//@ lemma bitFlipUp C20: forall S uint32, k uint32 :: S < 0x7fff0000 && k < 16 ==> fold32(S+(1<<k)) != fold32(S)
+//@ lemma bitFlipDown C20: forall S uint32, k uint32 :: S < 0x7fff0000 && k < 16 && S >= (1<<k) ==> fold32(S-(1<<k)) != fold32(S)
